@@ -217,7 +217,8 @@ class Ref:
             content = None
         elif table[0] == "stream":
             content = None if self.streamed_table_not_compared else table[1]
-            ext["ups/%s.table" % n] = content                # the stream is saved beside the external files
+            ext["ups/%s.table" % n] = table[1]               # the stream is saved beside the external files (and, in D39's
+            #                                                  class, compared only as one of them)
             listed = dict(ext)
             table = "interned"
         elif table[1] == self.interned_path(key) or \
